@@ -6,18 +6,31 @@ Statements only; proofs are in `Lemmas/Retry.lean`, the model in `Model/Retry.le
 `tlv` (whether tt1.read_tlv swallows the command error for the whole TLV: repair of C08) is universally
 quantified.  All theorems about operations are for the repaired code (`Cfg.repaired`: fixes/C16/0001-0005);
 the as-found behaviour is kept in the model (`Cfg.asFound`) and shown by the examples at the end.
+
+The state `w : World` an operation starts in is arbitrary: any fault script, any script of `clf.sense`
+results, any exchange log, and whatever earlier operations on the same tag object have left behind
+(`gone`: Type 2 target lost, `sticky`: ISO-DEP error memory).  The only assumption about it is `Sound w`
+(the tag object knows when the frontend has dropped its target); `Sound` holds for a new tag object and is
+preserved by every operation (`tag_object_stays_sound`).
 -/
 namespace NfcVerif.C16
 open NfcVerif NfcVerif.Retry
 
-/-- start state of an operation: fault script, empty logs -/
-def start (script : List Att) : World := ⟨script, [], []⟩
+/-- start state of a new tag object: fault script, sense script, empty logs -/
+def start (script : List Att) (senses : List Bool := []) : World := { script := script, senses := senses }
+
+theorem start_sound (script : List Att) (senses : List Bool) : Sound (start script senses) := by
+  intro h; cases h
+
+/-- the link of the tag object is usable: Type 2 target not lost (nothing to say for the other kinds) -/
+def Alive (p : Prim) (w : World) : Prop := p.kind = .t12 → w.gone = false ∧ w.lost = false
 
 /-- **bounded repetition, stops at the first answer** (Type 1/2 `transceive`, Type 3
 `send_cmd_recv_rsp`, any budget, any script, as found and repaired): one call of the primitive
 adds one invocation to the log whose attempts are unanswered ones followed by at most one more
 attempt, never more than the budget; hence an answered command is never sent again. -/
-theorem transceive_bounded (cfg : Cfg) (p : Prim) (c : Cmd) (a : Ans) (w : World) (hk : LoopKind p.kind) :
+theorem transceive_bounded (cfg : Cfg) (p : Prim) (c : Cmd) (a : Ans) (w : World) (hk : LoopKind p.kind)
+    (hw : Alive p w) :
     ∃ fails tail, (prim cfg p c a w).2.log = w.log ++ [⟨c, fails ++ tail⟩]
       ∧ (∀ x ∈ fails, isAnswered x = false) ∧ tail.length ≤ 1 ∧ fails.length + tail.length ≤ p.budget := by
   have key : ∀ k, ∃ fails tail, (loop cfg k p.idm c a p.budget none [] w).2.log = w.log ++ [⟨c, fails ++ tail⟩]
@@ -26,29 +39,36 @@ theorem transceive_bounded (cfg : Cfg) (p : Prim) (c : Cmd) (a : Ans) (w : World
     obtain ⟨f, t, h1, h2, h3, h4⟩ := loop_log cfg k p.idm c a p.budget none [] w
     exact ⟨f, t, by simpa using h1, h2, h3, h4⟩
   unfold prim
-  rcases hk with h | h <;> rw [h] <;> exact key _
+  rcases hk with h | h
+  · rw [h]; simp only [(hw h).1, (hw h).2]; exact key _
+  · rw [h]; exact key _
 
 /-- **matching reason code**: when every attempt of the budget fails with the same class
 (timeout / transmission / protocol error; command lost or answer lost) the primitive raises
 TagCommandError with TIMEOUT_ERROR / RECEIVE_ERROR / PROTOCOL_ERROR. -/
 theorem transceive_errno (cfg : Cfg) (p : Prim) (c : Cmd) (a : Ans) (w : World) (f : Fault) (e : Int)
-    (hk : LoopKind p.kind) (hb : 0 < p.budget) (hf : f.errno = some e) (hs : startsWith f p.budget w.script) :
+    (hk : LoopKind p.kind) (hw : Alive p w) (hb : 0 < p.budget) (hf : f.errno = some e)
+    (hs : startsWith f p.budget w.script) :
     (prim cfg p c a w).1 = .error (.tagCmd e) := by
   have key : ∀ k, (loop cfg k p.idm c a p.budget none [] w).1 = .error (.tagCmd e) := by
     intro k
     rw [loop_exhausted cfg k p.idm c a f p.budget none [] w hs (by omega)]
     simp [exhausted, hf]
   unfold prim
-  rcases hk with h | h <;> rw [h] <;> exact key _
+  rcases hk with h | h
+  · rw [h]; simp only [(hw h).1, (hw h).2]; exact key _
+  · rw [h]; exact key _
 
 /-- **ISO-DEP exchange is bounded** (coarse model of `IsoDepInitiator.exchange` for one unchained
-command, as found and repaired, any retry budget, any script): the loop terminates (the fuel of the
-model is never used up), logs one invocation and sends at most `n_retry + 2` frames. -/
-theorem isodep_bounded (cfg : Cfg) (p : Prim) (c : Cmd) (a : Ans) (w : World) (hk : p.kind = .t4) :
+command, as found and repaired, any retry budget, any script, no error remembered): the loop
+terminates (the fuel of the model is never used up), logs one invocation and sends at most
+`n_retry + 2` frames. -/
+theorem isodep_bounded (cfg : Cfg) (p : Prim) (c : Cmd) (a : Ans) (w : World) (hk : p.kind = .t4)
+    (hw : w.sticky = none) :
     (prim cfg p c a w).1 ≠ .error .outOfFuel
     ∧ ∃ atts, (prim cfg p c a w).2.log = w.log ++ [⟨c, atts⟩] ∧ atts.length ≤ p.budget + 2 := by
-  unfold prim; rw [hk]; simp only []
-  obtain ⟨h1, _, more, h3, h4⟩ := dep_spec cfg p.budget c a (p.budget + 3) 1 false false [] w
+  unfold prim; rw [hk]; simp only [hw]
+  obtain ⟨h1, _, more, h3, h4⟩ := dep_spec cfg p.budget c (a.eff false) (p.budget + 3) 1 false false [] w
     (by omega) (by intro h; cases h) (by omega) (by simp)
   refine ⟨?_, more, by simpa using h3, by simpa using h4⟩
   intro he
@@ -59,54 +79,187 @@ theorem isodep_bounded (cfg : Cfg) (p : Prim) (c : Cmd) (a : Ans) (w : World) (h
 /-- **ISO-DEP matching reason code**: `n_retry + 1` timeouts (transmission errors) in a row end the
 exchange with TagCommandError TIMEOUT_ERROR (RECEIVE_ERROR); a protocol error is final at once. -/
 theorem isodep_errno (cfg : Cfg) (p : Prim) (c : Cmd) (a : Ans) (w : World) (f : Fault) (e : Int)
-    (hk : p.kind = .t4) (hf : (f = .timeout ∧ e = 0) ∨ (f = .transmission ∧ e = -1))
+    (hk : p.kind = .t4) (hw : w.sticky = none) (hf : (f = .timeout ∧ e = 0) ∨ (f = .transmission ∧ e = -1))
     (hs : startsWith f (p.budget + 1) w.script) :
     (prim cfg p c a w).1 = .error (.tagCmd e) := by
-  unfold prim; rw [hk]; simp only []
-  exact dep_exhausted cfg p.budget c a f e hf (p.budget + 3) 1 false false [] w (by omega) (by omega)
+  unfold prim; rw [hk]; simp only [hw]
+  exact dep_exhausted cfg p.budget c (a.eff false) f e hf (p.budget + 3) 1 false false [] w (by omega) (by omega)
     (by simpa using hs)
 
 /-- **documented outcome, every fault script** (Type 3 and Type 4 families: generic Type 3, FeliCa
-Standard, FeliCa Lite, Type 4A/B over ISO-DEP with any retry budget): every operation, for any
-command sequence `l` and EVERY fault script of any length - timeouts, transmission and protocol
+Standard, FeliCa Lite / Lite-S, Type 4A/B over ISO-DEP with any retry budget): every operation,
+for any command sequence `l`, EVERY fault script of any length - timeouts, transmission and protocol
 errors, unknown CommunicationError classes, lost commands and lost answers, cut Type 3 answers -
-ends with a value or a TagCommandError. -/
+and every state left by earlier operations ends with a value or a TagCommandError. -/
 theorem op_outcome_documented (tlv : Bool) (fam op : String) (l : Phases) (v : Val) (nret : Nat) (P : Prog)
-    (script : List Att) (h : prog Cfg.repaired tlv fam op l v nret = some P)
-    (hf : fam = "t3" ∨ fam = "t3std" ∨ fam = "lite" ∨ fam = "t4") :
-    Documented (run Cfg.repaired P 0 (start script)).1 :=
-  run_documented Robust True (fun _ _ h => h) P 0 (start script)
-    (prog_clean_robust tlv fam op l v nret P h hf) (Or.inl trivial)
+    (w : World) (h : prog Cfg.repaired tlv fam op l v nret = some P)
+    (hf : fam = "t3" ∨ fam = "t3p" ∨ fam = "t3std" ∨ fam = "lite" ∨ fam = "lites" ∨ fam = "t4") (hs : Sound w) :
+    Documented (run Cfg.repaired P 0 w).1 :=
+  run_documented Robust True (fun _ _ h => h) P 0 w
+    (prog_clean_robust tlv fam op l v nret P h hf) (Or.inl trivial) hs
 
 /-- **documented outcome, all families** (partial): every operation of every modelled family
 (Type 1, 2, 3, 4, generic and vendor classes) ends with a value or a TagCommandError for every
-fault script made of timeout / transmission / protocol errors and cut answers.  What remains
-excluded (only relevant for the Type 1 and Type 2 families, see `op_outcome_documented`): scripts in
-which `exchange` raises another CommunicationError class three times in a row; there Type 1/2
-raise RuntimeError (`unknown_commerror_counterexample`, open finding pinned by the test-suite). -/
+fault script made of timeout / transmission / protocol errors and cut answers, every sense script
+and every state left by earlier operations.  What remains excluded (only relevant for the Type 1 and
+Type 2 families, see `op_outcome_documented`): scripts in which `exchange` raises another
+CommunicationError class three times in a row; there Type 1/2 raise RuntimeError
+(`unknown_commerror_counterexample`, open finding pinned by the test-suite). -/
 theorem op_outcome_documented_partial (tlv : Bool) (fam op : String) (l : Phases) (v : Val) (nret : Nat) (P : Prog)
-    (script : List Att) (h : prog Cfg.repaired tlv fam op l v nret = some P)
-    (hb : Benign (start script)) :
-    Documented (run Cfg.repaired P 0 (start script)).1 :=
-  run_documented (fun _ => True) False (fun h => h.elim) P 0 (start script)
-    (prog_clean_all tlv fam op l v nret P h) (Or.inr hb)
+    (w : World) (h : prog Cfg.repaired tlv fam op l v nret = some P)
+    (hb : Benign w) (hs : Sound w) :
+    Documented (run Cfg.repaired P 0 w).1 :=
+  run_documented (fun _ => True) False (fun h => h.elim) P 0 w
+    (prog_clean_all tlv fam op l v nret P h) (Or.inr hb) hs
+
+/-- **the tag object never calls `exchange` without a target**: `Sound` (frontend has lost its target
+implies `tag.target` is None, so that `transceive` raises TIMEOUT_ERROR instead of handing `None` to
+its caller) is preserved by every operation of every family - the result of every `clf.sense` is
+stored in the tag object. -/
+theorem tag_object_stays_sound (tlv : Bool) (fam op : String) (l : Phases) (v : Val) (nret : Nat) (P : Prog)
+    (w : World) (h : prog Cfg.repaired tlv fam op l v nret = some P)
+    (hb : Benign w) (hs : Sound w) : Sound (run Cfg.repaired P 0 w).2 :=
+  (run_inv (fun _ => True) False (fun h => h.elim) P 0 w (prog_clean_all tlv fam op l v nret P h) (Or.inr hb) hs).2.2
 
 /-- Type 3 `format` (the probing loops take their decisions from errors): for every tag, with and
 without wipe, for every fault script. -/
-theorem t3_format_documented (t : T3Tag) (wipe : Bool) (script : List Att) :
-    Documented (run Cfg.repaired (t3Format Cfg.repaired t wipe) 0 (start script)).1 :=
-  run_documented Robust True (fun _ _ h => h) _ 0 (start script)
-    (t3Format_clean Robust (Or.inl rfl) Cfg.repaired t wipe) (Or.inl trivial)
+theorem t3_format_documented (t : T3Tag) (wipe : Bool) (w : World) (hs : Sound w) :
+    Documented (run Cfg.repaired (t3Format Cfg.repaired t wipe) 0 w).1 :=
+  run_documented Robust True (fun _ _ h => h) _ 0 w
+    (t3Format_clean Robust (Or.inl rfl) Cfg.repaired t wipe) (Or.inl trivial) hs
 
 /-- **an answered command is never repeated** in any operation of the Type 1/2/3 families: in the
 exchange log of every run every primitive call consists of unanswered attempts followed by at most
 one more attempt, three at most.  (A retried *unanswered* write may have been executed by the tag
-before its answer was lost and is then executed again - inherent, see `lost_answer_write_twice`.) -/
+before its answer was lost and is then executed again - inherent, see `lost_answer_write_twice`;
+a command that is not idempotent is refused by the tag the second time, see `once_refused_on_retry`.) -/
 theorem write_not_duplicated (tlv : Bool) (fam op : String) (l : Phases) (v : Val) (nret : Nat) (P : Prog)
-    (script : List Att) (h : prog Cfg.repaired tlv fam op l v nret = some P) (h4 : fam ≠ "t4") :
-    LogOK (run Cfg.repaired P 0 (start script)).2.log :=
-  run_log Cfg.repaired LoopKind (fun _ h => h) P 0 (start script) (prog_clean tlv fam op l v nret P h h4)
-    (by intro inv hm; cases hm)
+    (w : World) (h : prog Cfg.repaired tlv fam op l v nret = some P) (h4 : fam ≠ "t4") (hw : LogOK w.log) :
+    LogOK (run Cfg.repaired P 0 w).2.log :=
+  run_log Cfg.repaired LoopKind (fun _ h => h) P 0 w (prog_clean tlv fam op l v nret P h h4) hw
+
+/-! ## state carried from one operation to the next -/
+
+/-- programs of a session come from the operation table -/
+def FromTable (tlv : Bool) (fams : List String) (P : Prog) : Prop :=
+  ∃ fam op l v nret, fam ∈ fams ∧ prog Cfg.repaired tlv fam op l v nret = some P
+
+/-- **sessions, every fault script** (Type 3 and Type 4 families): any number of operations on the
+same tag object, each one taken from the operation table, with the NDEF cache carried along: every
+single operation ends with a value or a TagCommandError, whatever the earlier ones did. -/
+theorem session_outcomes_documented (tlv : Bool) (read : Prog) (ops : List SOp) (cached : Bool) (w : World)
+    (hr : FromTable tlv ["t3", "t3p", "t3std", "lite", "lites", "t4"] read)
+    (hops : ∀ o ∈ ops, FromTable tlv ["t3", "t3p", "t3std", "lite", "lites", "t4"] o.fresh
+                      ∧ FromTable tlv ["t3", "t3p", "t3std", "lite", "lites", "t4"] o.cached)
+    (hs : Sound w) :
+    ∀ out ∈ (session Cfg.repaired read ops cached w).1, Documented out := by
+  have key : ∀ P, FromTable tlv ["t3", "t3p", "t3std", "lite", "lites", "t4"] P → Clean Robust P := by
+    intro P ⟨fam, op, l, v, nret, hm, hp⟩
+    refine prog_clean_robust tlv fam op l v nret P hp ?_
+    simp only [List.mem_cons, List.not_mem_nil, or_false] at hm
+    exact hm
+  exact session_documented Robust True (fun _ _ h => h) read (key _ hr) ops cached w
+    (fun o hm => ⟨key _ (hops o hm).1, key _ (hops o hm).2⟩) (Or.inl trivial) hs
+
+/-- **sessions, all families** (partial, same restriction on the script as
+`op_outcome_documented_partial`) -/
+theorem session_outcomes_documented_partial (tlv : Bool) (read : Prog) (ops : List SOp) (cached : Bool) (w : World)
+    (fams : List String) (hr : FromTable tlv fams read)
+    (hops : ∀ o ∈ ops, FromTable tlv fams o.fresh ∧ FromTable tlv fams o.cached)
+    (hb : Benign w) (hs : Sound w) :
+    ∀ out ∈ (session Cfg.repaired read ops cached w).1, Documented out := by
+  have key : ∀ P, FromTable tlv fams P → Clean (fun _ => True) P := by
+    intro P ⟨fam, op, l, v, nret, _, hp⟩
+    exact prog_clean_all tlv fam op l v nret P hp
+  exact session_documented (fun _ => True) False (fun h => h.elim) read (key _ hr) ops cached w
+    (fun o hm => ⟨key _ (hops o hm).1, key _ (hops o hm).2⟩) (Or.inr hb) hs
+
+/-- **ISO-DEP: an unrecoverable error is remembered** (as found and repaired, any budget, any
+script): a command on an initiator without a stored error either ends normally or with the status
+word error of the card (or, as found only, with the unknown CommunicationError itself) and stores
+nothing, or it ends with TagCommandError(n) and `n` is stored - whatever `n` is, 0 (TIMEOUT_ERROR)
+included. -/
+theorem isodep_error_remembered (cfg : Cfg) (p : Prim) (c : Cmd) (a : Ans) (w : World)
+    (hk : p.kind = .t4) (hs : w.sticky = none) :
+    ((prim cfg p c a w).2.sticky = none
+      ∧ ((prim cfg p c a w).1 = .ok ()
+         ∨ (∃ n, (prim cfg p c a w).1 = .error (.tagCmd n) ∧ (a.eff false).refuses n)
+         ∨ (cfg.fixT4 = false ∧ ∃ f, (prim cfg p c a w).1 = .error (Fault.exc f))))
+    ∨ (∃ n, (prim cfg p c a w).1 = .error (.tagCmd n) ∧ (prim cfg p c a w).2.sticky = some n) :=
+  prim_t4_remembers cfg p c a w hk hs
+
+/-- **ISO-DEP: no frame after an unrecoverable error - never a stale answer, never a second execution**:
+with a reason code stored, every Type 4 operation except the presence check (which sends a bare R(NAK))
+leaves script, exchange log and the commands executed by the card exactly as they are and ends with a
+value or a TagCommandError. -/
+theorem isodep_silent_after_error (tlv : Bool) (op : String) (l : Phases) (v : Val) (nret : Nat) (P : Prog)
+    (w : World) (e : Int) (h : prog Cfg.repaired tlv "t4" op l v nret = some P) (hp : op ≠ "present")
+    (hst : w.sticky = some e) (hs : Sound w) :
+    (run Cfg.repaired P 0 w).2 = w ∧ Documented (run Cfg.repaired P 0 w).1 :=
+  ⟨run_t4_sticky Cfg.repaired P 0 w e (prog_clean_t4 tlv "t4" op l v nret P h rfl hp) hst,
+   op_outcome_documented tlv "t4" op l v nret P w h (by simp) hs⟩
+
+/-- ... and so does a whole session of such operations -/
+theorem isodep_session_silent_after_error (read : Prog) (ops : List SOp) (cached : Bool) (w : World) (e : Int)
+    (hr : Clean (fun k => k = .t4) read)
+    (hops : ∀ o ∈ ops, Clean (fun k => k = .t4) o.fresh ∧ Clean (fun k => k = .t4) o.cached)
+    (hst : w.sticky = some e) :
+    (session Cfg.repaired read ops cached w).2 = w :=
+  session_dead Cfg.repaired _ w (fun p c a hk => ⟨_, prim_t4_sticky Cfg.repaired p c a w e hk hst⟩) read
+    ⟨hr, quiet_of_t4 _ hr⟩ ops cached
+    (fun o hm => ⟨⟨(hops o hm).1, quiet_of_t4 _ (hops o hm).1⟩, ⟨(hops o hm).2, quiet_of_t4 _ (hops o hm).2⟩⟩)
+
+/-- **Type 2: a failed re-activation is remembered**: when READ is answered with NAK the tag is activated
+again; the result goes into the tag object (`gone` is the negation of what `clf.sense` returned), the
+error is INVALID_PAGE_ERROR if the tag was found and RECEIVE_ERROR if not, and the tag object is sound
+afterwards whatever it was before. -/
+theorem read_nak_reactivation (c : Cmd) (x : Att × Bool) (acc : List (Att × Bool)) (w : World) :
+    (answered c .nak x acc w).1 = .error (.tagCmd (if w.sense.1 then 2 else -1))
+    ∧ (answered c .nak x acc w).2.gone = !w.sense.1
+    ∧ (answered c .nak x acc w).2.lost = !w.sense.1
+    ∧ Sound (answered c .nak x acc w).2 := by
+  refine ⟨rfl, rfl, ?_, sound_push _ _ (sound_reactivate w)⟩
+  unfold answered World.reactivate World.sense World.push
+  cases w.senses <;> simp
+
+/-- **Type 2: no exchange once the target is gone**: every operation of the Type 1 / Type 2 families
+(except `protect` with a password on Ultralight C / NTAG21x, which re-activates the tag itself after its
+writes) leaves script, exchange log and tag memory as they are and ends with a value or
+TagCommandError - never with the TypeError that `clf.exchange` returning None would cause. -/
+theorem t2_silent_when_gone (tlv : Bool) (fam op : String) (l : Phases) (v : Val) (nret : Nat) (P : Prog)
+    (w : World) (h : prog Cfg.repaired tlv fam op l v nret = some P)
+    (hf : fam = "t1" ∨ fam = "t2" ∨ fam = "t2nxp" ∨ fam = "t2ulc" ∨ fam = "t2ntag" ∨ fam = "t2i2c")
+    (hop : op ≠ "protectpw") (hg : w.gone = true) :
+    (run Cfg.repaired P 0 w).2 = w ∧ Documented (run Cfg.repaired P 0 w).1 := by
+  have hc := prog_clean_t12 tlv fam op l v nret P h hf
+  have hq := prog_quiet Cfg.repaired tlv fam op l v nret P h hop
+  have hw := run_t12_gone Cfg.repaired P 0 w hc hq hg
+  refine ⟨hw, ?_⟩
+  -- every call fails with TagCommandError(0): the outcome is documented without any assumption on the script
+  have hd : ∀ (P : Prog) (cur : Int), Clean (fun k => k = .t12) P → Quiet P → Documented (run Cfg.repaired P cur w).1 := by
+    intro P
+    induction P with
+    | ret v => intro cur _ _; trivial
+    | crash e => intro cur hc _; exact hc
+    | reraise => intro cur _ _; exact ⟨_, rfl⟩
+    | caseErr z n p ihz ihn ihp =>
+      intro cur hc hq
+      unfold run
+      split
+      · exact ihz () cur hc.1 hq.1
+      · split
+        · exact ihn () cur hc.2.1 hq.2.1
+        · exact ihp () cur hc.2.2 hq.2.2
+    | call p c a ct ok err ihok iherr =>
+      intro cur hc hq
+      unfold run
+      rw [prim_t12_gone Cfg.repaired p c a w hc.1 hg]
+      simp only []
+      split
+      · rename_i n _; exact iherr () n hc.2.2.2 hq
+      · exact ⟨_, rfl⟩
+    | sense f g ihf ihg => intro cur _ hq; exact absurd hq (by simp [Quiet])
+  exact hd P 0 hc hq
 
 /-! ## counter-examples (open findings) and as-found behaviour -/
 
@@ -130,6 +283,15 @@ theorem presence_check_not_retried :
 theorem lost_answer_write_twice :
     (prog Cfg.repaired true "t2" "write" [[wr4]] .unit 0).map
       (fun P => (run Cfg.repaired P 0 (start [.flt .timeout true])).2.applied.map (·.tok)) = some ["w4", "w4"] := by
+  decide +kernel
+
+/-- a command that the tag accepts only once (FeliCa Lite-S write with MAC: the write counter has moved on):
+the answer is lost, the retry is refused by the tag with its status flags and the operation ends with that
+TagCommandError although the tag has executed the command - once -/
+theorem once_refused_on_retry :
+    (prog Cfg.repaired true "t3" "seq" [[⟨⟨"w5x2", true⟩, .once 0x01B1⟩]] .unit 0).map
+      (fun P => let r := run Cfg.repaired P 0 (start [.flt .timeout true]); (r.1, r.2.applied.map (·.tok)))
+      = some (.exc (.tagCmd 0x01B1), ["w5x2"]) := by
   decide +kernel
 
 /-! as found (before fixes/C16): F17, F31 (Type 3), F32, sector select assert, ISO-DEP unknown CommunicationError -/
@@ -160,14 +322,42 @@ executed once -/
 example : (prog Cfg.repaired true "t4" "write" [[⟨⟨"up0", true⟩, .ok⟩]] .unit 5).map
     (fun P => let r := run Cfg.repaired P 0 (start [.flt .timeout false]); (r.1, r.2.applied.map (·.tok)))
     = some (.ok .unit, ["up0"]) := by decide +kernel
-example : LoopKind t12.kind ∧ 0 < t12.budget := ⟨Or.inl rfl, by decide⟩
+example : LoopKind t12.kind ∧ 0 < t12.budget ∧ Alive t12 (start []) := ⟨Or.inl rfl, by decide, fun _ => ⟨rfl, rfl⟩⟩
 example : startsWith .transmission 3 [.flt .transmission true, .flt .transmission false, .flt .transmission true, .ans] := by
   simp [startsWith]
-example : Benign (start [.flt .timeout true, .ans, .short 2, .flt .protocol false]) := by
+example : Benign (start [.flt .timeout true, .ans, .short 2, .flt .protocol false] [false]) := by
   intro f r h; simp [start] at h; rcases h with ⟨h, _⟩ | ⟨h, _⟩ <;> subst h <;> simp [Fault.errno]
 /-- two timeouts are absorbed, the third answer ends the presence check with True -/
 example : (prog Cfg.repaired true "t2" "present" [[rd0]] .true_ 0).map
     (fun P => (run Cfg.repaired P 0 (start [.flt .timeout false, .flt .timeout true])).1) = some (.ok .true_) := by
   decide +kernel
+
+/-! sessions: what is carried over -/
+
+def upd (n : Nat) : Step := ⟨⟨s!"up{n}", true⟩, .ok⟩
+def tmo : Att := .flt .timeout true
+/-- the two-operation history behind `isodep_silent_after_error`: write A, every answer is lost (retry
+budget 1: I-block and one R(NAK)), the operation ends with TIMEOUT_ERROR (0, a falsy number); the second
+write meets one more timeout - it is refused with the same code, not a single frame is sent, the card has
+executed one UPDATE BINARY -/
+def wrA : SOp := ⟨true, .none, false, .ret .unit, (chain Cfg.repaired ⟨.t4, 1, true⟩ .tagErr .raise [upd 0] (fin .unit))⟩
+example :
+    let r := session Cfg.repaired (.ret .ndef) [wrA, wrA] true (start [tmo, tmo, .flt .timeout false])
+    (r.1, r.2.log.length, r.2.applied.map (·.tok), r.2.script.length)
+      = ([.exc (.tagCmd 0), .exc (.tagCmd 0)], 1, ["up0"], 1) := by decide +kernel
+/-- Type 2: `dump()` runs into the NAK at the end of memory, the re-activation fails; the presence check
+that follows sends nothing and gives False -/
+def dumpT2 : Option Prog := prog Cfg.repaired true "t2" "dump" [[rd0], [⟨⟨"r4", false⟩, .ok⟩, ⟨⟨"r5", false⟩, .nak⟩], []] .list 0
+def presT2 : Option Prog := prog Cfg.repaired true "t2" "present" [[rd0]] .true_ 0
+example : (dumpT2.bind fun d => presT2.map fun p =>
+    let r := session Cfg.repaired (.ret .none) [⟨false, .none, false, d, d⟩, ⟨false, .none, false, p, p⟩] false (start [] [false])
+    (r.1, r.2.log.length, r.2.gone, r.2.lost)) = some ([.ok .list, .ok .false_], 3, true, true) := by decide +kernel
+/-- the same history with a tag that is found again: the presence check is sent -/
+example : (dumpT2.bind fun d => presT2.map fun p =>
+    let r := session Cfg.repaired (.ret .none) [⟨false, .none, false, d, d⟩, ⟨false, .none, false, p, p⟩] false (start [] [true])
+    (r.1, r.2.log.length, r.2.gone)) = some ([.ok .list, .ok .true_], 4, false) := by decide +kernel
+example : FromTable true ["t4"] (chain Cfg.repaired ⟨.t4, 1, true⟩ .tagErr .raise [upd 0] (fin .unit)) :=
+  ⟨"t4", "write", [[upd 0]], .unit, 1, by simp, rfl⟩
+example : Sound (start [tmo] [false, true]) := start_sound _ _
 
 end NfcVerif.C16
